@@ -2250,7 +2250,8 @@ GRcreate(int32 grid, const char *name, int32 ncomp, int32 nt, int32 il, int32 di
     HEclear();
 
     /* check the validity of the args */
-    if (HAatom_group(grid) != GRIDGROUP || name == NULL || ncomp < 1 ||
+    /* (the name is kept as the name of a vgroup, whose record has 16 bits for its length) */
+    if (HAatom_group(grid) != GRIDGROUP || name == NULL || strlen(name) > 65535 || ncomp < 1 ||
         (il != MFGR_INTERLACE_PIXEL && il != MFGR_INTERLACE_LINE && il != MFGR_INTERLACE_COMPONENT) ||
         dimsizes == NULL || dimsizes[0] <= 0 || dimsizes[1] <= 0)
         HGOTO_ERROR(DFE_ARGS, FAIL);
